@@ -167,6 +167,17 @@ Theorem C17_greedy_peeling_explains : forall G P S topo (f : edge -> Z),
 Proof. exact greedy_peeling_explains_code. Qed.
 Print Assumptions C17_greedy_peeling_explains.
 
+(* without conservation: for ANY non-negative integer flow the returned paths are source-to-sink paths of the ORIGINAL
+   graph with positive weights, no edge is explained beyond its flow, at most #positive edges rounds *)
+Theorem C17_greedy_peeling_routes : forall G P S topo (f : edge -> Z),
+  peel_inputs_ok G P S topo = true -> nonneg G f ->
+  exists D, decompose code_nosink_keyerror G (adj_of P) (adj_of S) topo f = PeelOK D /\
+            Forall (fun pw => ss_path G (fst pw) /\ 0 < snd pw) D /\
+            (forall e, In e G -> 0 <= explained D e <= f e) /\
+            (length D <= npos G f)%nat.
+Proof. exact greedy_peeling_routes_code. Qed.
+Print Assumptions C17_greedy_peeling_routes.
+
 (* for either setting of the switch; the old behaviour needs a graph with at least one edge *)
 Theorem C17_greedy_peeling_explains_switch : forall keyerr G P S topo (f : edge -> Z),
   peel_inputs_ok G P S topo = true -> keyerr = false \/ G <> [] -> nonneg G f -> conserving G f ->
